@@ -126,6 +126,31 @@ class PctPolicy:
         return max(runnable, key=lambda t: (self._p(t), -t.tid))
 
 
+class OvertakePolicy:
+    """One overtaking: serial (depth-first, highest task id first) until scheduling point k, where the running task is
+    pre-empted in favour of task `to` and DEMOTED - from then on it only runs again when nothing else can.  The overtaker
+    (and the worker threads it spawns) therefore runs to completion before the overtaken task continues: the schedule of
+    "request B arrives and is served entirely while request A sits between two of its lines"."""
+    kind = "overtake"
+
+    def __init__(self, k, to):
+        self.k = k
+        self.to = to
+        self.demoted = None
+
+    def at_line(self, k, cur, others):
+        if k == self.k and self.demoted is None:
+            for t in others:
+                if t.tid == self.to:
+                    self.demoted = cur.tid
+                    return t
+        return None
+
+    def at_block(self, k, runnable):
+        pref = [t for t in runnable if t.tid != self.demoted]
+        return (pref or runnable)[-1]
+
+
 def make_policy(spec, rng_factory=None):
     """spec: {"kind": "default"} | {"kind":"replay","preemptions":[[k,tid],..]} |
     {"kind":"random","seed":s,"p":p} | {"kind":"pct","seed":s,"depth":d,"est":n}"""
@@ -135,6 +160,8 @@ def make_policy(spec, rng_factory=None):
         return DefaultPolicy()
     if kind == "replay":
         return ReplayPolicy(spec.get("preemptions", []))
+    if kind == "overtake":
+        return OvertakePolicy(spec["k"], spec["to"])
     if kind == "random":
         return RandomPolicy(random.Random(spec["seed"]), spec.get("p", 0.05))
     if kind == "pct":
@@ -387,6 +414,13 @@ class SimThread(_RealThread):
         s = self._sim_sched
         if s is None or s is not Scheduler.active:
             return super().join(timeout)
+        if timeout is not None and self._sim_task.state != "done":
+            # a timed wait: the others get the processor for a while, then the wait is over whether or not the thread
+            # has finished (virtual time is not modelled here; "the timeout elapsed" is always a legal outcome)
+            s.yield_now("timed_join")
+            if self._sim_task.state == "done":
+                super().join(10.0)
+            return
         s.join(self._sim_task)
         super().join(10.0)
 
